@@ -32,6 +32,9 @@ def _channels(rng):
            cirq.KrausChannel([np.array([[1, 0], [0, 0]]), np.array([[0, 0], [0, 1]])])]
     two = [cirq.depolarize(p * 0.8, n_qubits=2), cirq.asymmetric_depolarize(error_probabilities={"XZ": p / 2, "YI": p / 4, "II": 1 - 3 * p / 4}),
            cirq.KrausChannel([np.sqrt(0.5) * cirq.unitary(cirq.CNOT), np.sqrt(0.5) * np.kron(u, np.eye(2))]), cirq.CZ.with_probability(0.3)]
+    # channels under a classical-basis control (the description read from the GATE must be the one its operations implement): control on 0, default control
+    two += [cirq.ControlledGate(cirq.bit_flip(0.2 + p / 2), control_values=[0]), cirq.ControlledGate(cirq.asymmetric_depolarize(0.1, 0.2, 0.05), control_values=[0]), cirq.ControlledGate(cirq.phase_flip(0.3)),
+            cirq.ControlledGate(cirq.X.with_probability(0.4), control_values=[0]), cirq.ControlledGate(cirq.Y, control_values=[0])]
     return one, two
 
 
